@@ -338,19 +338,20 @@ structure Shape (s s' : Sys) (i : Wid) : Prop where
   evs : ∃ evs, s'.evtQ = upd s.evtQ i (s.evtQ i ++ evs) ∧ s'.sent = s.sent ++ evtMsgs evs
   appended : s'.appended = s.appended
   dropped : s'.dropped = s.dropped
+  deadDropped : s'.deadDropped = s.deadDropped
   spawned : s'.spawned = s.spawned
   spawnNotified : s'.spawnNotified = s.spawnNotified
 
 theorem Shape.refl (s : Sys) (i : Wid) : Shape s s i :=
   { env := rfl, prog := rfl, cmdQ := rfl, known := fun _ _ => Iff.rfl, evs := ⟨[], by simp, by simp [evtMsgs]⟩,
-    appended := rfl, dropped := rfl, spawned := rfl, spawnNotified := rfl }
+    appended := rfl, dropped := rfl, deadDropped := rfl, spawned := rfl, spawnNotified := rfl }
 
 theorem Shape.trans {s s' s'' : Sys} {i : Wid} (h1 : Shape s s' i) (h2 : Shape s' s'' i) : Shape s s'' i := by
   obtain ⟨e1, he1, hs1⟩ := h1.evs
   obtain ⟨e2, he2, hs2⟩ := h2.evs
   refine { env := h2.env.trans h1.env, prog := h2.prog.trans h1.prog, cmdQ := h2.cmdQ.trans h1.cmdQ,
            known := fun w p => (h2.known w p).trans (h1.known w p), evs := ⟨e1 ++ e2, ?_, ?_⟩,
-           appended := h2.appended.trans h1.appended, dropped := h2.dropped.trans h1.dropped,
+           appended := h2.appended.trans h1.appended, dropped := h2.dropped.trans h1.dropped, deadDropped := h2.deadDropped.trans h1.deadDropped,
            spawned := h2.spawned.trans h1.spawned, spawnNotified := h2.spawnNotified.trans h1.spawnNotified }
   · rw [he2, he1]; simp [List.append_assoc]
   · rw [hs2, hs1]; simp [evtMsgs, List.filterMap_append, List.append_assoc]
@@ -372,7 +373,7 @@ theorem known_setWk_same {s : Sys} {i : Wid} {w' : WorkerSt} (hs : ∀ p, (w'.pr
 theorem Shape.setWk {s : Sys} {i : Wid} {w' : WorkerSt} (hs : ∀ p, (w'.procs p).isSome = ((s.wk i).procs p).isSome) :
     Shape s (s.setWk i w') i :=
   { env := rfl, prog := rfl, cmdQ := rfl, known := known_setWk_same hs, evs := ⟨[], by simp, by simp [evtMsgs]⟩,
-    appended := rfl, dropped := rfl, spawned := rfl, spawnNotified := rfl }
+    appended := rfl, dropped := rfl, deadDropped := rfl, spawned := rfl, spawnNotified := rfl }
 
 theorem Shape.noteExit (s : Sys) (i : Wid) (cur : Pid) (x : Proc) : Shape s (s.noteExit i cur x) i := by
   rcases noteExit_eq s i cur x with e | e
@@ -380,12 +381,12 @@ theorem Shape.noteExit (s : Sys) (i : Wid) (cur : Pid) (x : Proc) : Shape s (s.n
   · rw [e]
     exact { env := rfl, prog := rfl, cmdQ := rfl, known := fun _ _ => Iff.rfl,
             evs := ⟨[.exited cur], by simp, by simp [evtMsgs, evtMsg]⟩,
-            appended := rfl, dropped := rfl, spawned := rfl, spawnNotified := rfl }
+            appended := rfl, dropped := rfl, deadDropped := rfl, spawned := rfl, spawnNotified := rfl }
 
 theorem Shape.pushEvt (s : Sys) (i : Wid) (e : Evt) (he : evtMsg e = none) : Shape s (s.pushEvt i e) i :=
   { env := rfl, prog := rfl, cmdQ := rfl, known := fun _ _ => Iff.rfl,
     evs := ⟨[e], by simp, by simp [evtMsgs, he]⟩,
-    appended := rfl, dropped := rfl, spawned := rfl, spawnNotified := rfl }
+    appended := rfl, dropped := rfl, deadDropped := rfl, spawned := rfl, spawnNotified := rfl }
 
 theorem Shape.ghost {s s' : Sys} {i : Wid} (h : Shape s s' i) (reported learned : List (Pid × Pid)) :
     Shape s { s' with reported := reported, learned := learned } i := { h with }
@@ -420,7 +421,7 @@ theorem Shape.execStep (s : Sys) (i : Wid) (fuel : Nat) (ordQ : List Pid) : Shap
         | cont => exact Shape.setWk (hdom _ _ _)
         | send t m =>
           refine { env := rfl, prog := rfl, cmdQ := rfl, known := known_setWk_same (hdom _ _ _),
-                   evs := ⟨[.deliver t m], rfl, rfl⟩, appended := rfl, dropped := rfl, spawned := rfl, spawnNotified := rfl }
+                   evs := ⟨[.deliver t m], rfl, rfl⟩, appended := rfl, dropped := rfl, deadDropped := rfl, spawned := rfl, spawnNotified := rfl }
         | spawn fn regs => exact (Shape.setWk (hdom _ _ _)).trans (Shape.pushEvt _ i _ rfl)
         | awaitInit ts => exact (Shape.setWk (hdom _ _ _)).trans (Shape.pushEvt _ i _ rfl)
         | blocked => exact Shape.setWk (hdom _ _ _)
@@ -437,7 +438,7 @@ theorem Shape.pushEvtReported (s : Sys) (i : Wid) (e : Evt) (he : evtMsg e = non
     Shape s { s.pushEvt i e with reported := rep } i :=
   { env := rfl, prog := rfl, cmdQ := rfl, known := fun _ _ => Iff.rfl,
     evs := ⟨[e], by simp, by simp [evtMsgs, he]⟩,
-    appended := rfl, dropped := rfl, spawned := rfl, spawnNotified := rfl }
+    appended := rfl, dropped := rfl, deadDropped := rfl, spawned := rfl, spawnNotified := rfl }
 
 theorem Shape.reportTarget (s : Sys) (i : Wid) (t : Pid) : Shape s (reportTarget s i t) i := by
   unfold QM.Sys.reportTarget
@@ -763,15 +764,24 @@ theorem cmdEff_handle {s : Sys} (h : RInv s) {R : Rules} (hR : R.Tame) {i : Wid}
       cases heq
       unfold known at hk; rw [← e_wk, hx] at hk; simp at hk
     | some x =>
-      simp only [handleCmdWith, hx] at r' ⊢
-      have hs := hsame ((SameProcs.updProc (x' := { x with mailbox := x.mailbox ++ [m] }) hx rfl
-          (w' := { s1.wk i with procs := upd (s1.wk i).procs t (some { x with mailbox := x.mailbox ++ [m] }) }) rfl rfl).trans
-          (SameProcs.wakeSelecting _ t))
-      refine CmdEff.sameKnown r' e_env e_cmdQ hs hevs0 e_sent e_spawned rfl ?_ (fun hn => by simp [cmdMsg] at hn)
-        (fun c' => by show notifiedOf c' s1.spawnNotified = _; rw [e_notif]; simp [cmdNotify])
-      intro t' m' heq _
-      cases heq
-      exact ⟨by show s1.appended ++ [(t, m)] = _; rw [e_app], e_drop⟩
+      by_cases hd : (Cfg.releaseDead && !x.deliverable) = true
+      · -- variant `releaseDead`: handled, not put into the mailbox
+        simp only [handleCmdWith, hx, hd, if_true] at r' ⊢
+        have hs := hsame (SameProcs.wakeSelecting (s1.wk i) t)
+        refine CmdEff.sameKnown r' e_env e_cmdQ hs hevs0 e_sent e_spawned rfl ?_ (fun hn => by simp [cmdMsg] at hn)
+          (fun c' => by show notifiedOf c' s1.spawnNotified = _; rw [e_notif]; simp [cmdNotify])
+        intro t' m' heq _
+        cases heq
+        exact ⟨by show s1.appended ++ [(t, m)] = _; rw [e_app], e_drop⟩
+      · simp only [handleCmdWith, hx, hd, if_false] at r' ⊢
+        have hs := hsame ((SameProcs.updProc (x' := { x with mailbox := x.mailbox ++ [m] }) hx rfl
+            (w' := { s1.wk i with procs := upd (s1.wk i).procs t (some { x with mailbox := x.mailbox ++ [m] }) }) rfl rfl).trans
+            (SameProcs.wakeSelecting _ t))
+        refine CmdEff.sameKnown r' e_env e_cmdQ hs hevs0 e_sent e_spawned rfl ?_ (fun hn => by simp [cmdMsg] at hn)
+          (fun c' => by show notifiedOf c' s1.spawnNotified = _; rw [e_notif]; simp [cmdNotify])
+        intro t' m' heq _
+        cases heq
+        exact ⟨by show s1.appended ++ [(t, m)] = _; rw [e_app], e_drop⟩
   | queryAwait a ts =>
     simp only [handleCmdWith] at r' ⊢
     have hq2 := queryTargets_spec a ts (s1.wk i)
